@@ -194,12 +194,26 @@ ROUTES = {
     "test_arg": "{{ 1 is eq(c.%(m)s(%(args)s)) }}",
     "cond": "{{ c.%(m)s(%(args)s) if true else 0 }}",
 }
+AUTOESCAPE_ROUTES = ["attr_filter", "map_attr", "format_field"]
 QUICK_ROUTES = ["direct", "subscript", "alias_set", "attr_filter", "stored_list", "map_attr", "macro_param",
                 "format_field"]
 
 
+def shape(x):
+    """Projection used by the deep comparison: the value together with the exact type of every
+    element, so that a list whose 1 became '1', True or 1.0 differs from its copy (dict / set
+    order is not part of it)."""
+    if isinstance(x, dict):
+        return (type(x).__name__, sorted(((shape(k), shape(v)) for k, v in x.items()), key=repr))
+    if isinstance(x, (set, frozenset)):
+        return (type(x).__name__, sorted((shape(y) for y in x), key=repr))
+    if isinstance(x, (list, tuple, collections.deque)):
+        return (type(x).__name__, [shape(y) for y in x])
+    return (type(x).__name__, x)
+
+
 def same(a, b):
-    return type(a) is type(b) and a == b
+    return type(a) is type(b) and a == b and shape(a) == shape(b)
 
 
 def changed_events(rec, before, after):
@@ -211,9 +225,10 @@ def changed_events(rec, before, after):
 def method_case(case):
     """Render one (container, method, args, route, mode) case; returns the trace."""
     core.use_repo()
-    kind, m, s, tags, a, route, is_async = case
+    kind, m, s, tags, a, route, is_async = case[:7]
+    autoescape = bool(case[7]) if len(case) > 7 else False
     rec = su.Recorder()
-    env = su.make_env(rec, immutable=True, enable_async=is_async)
+    env = su.make_env(rec, immutable=True, enable_async=is_async, autoescape=autoescape)
     c = build(kind, s)
     ctx = {"c": c, "box": {"inner": c}}
     for i, (t, x) in enumerate(zip(tags, a)):
@@ -224,7 +239,8 @@ def method_case(case):
     changed_events(rec, before, ctx)
     rec.emit("end", s=outcome)
     return {"env": "immutable", "policy": "default", "path": [], "callables": [], "ev": rec.ev,
-            "src": src, "case": [kind, m, s, tags, a, route, is_async]}
+            "cfg": {"async": is_async, "autoescape": autoescape},
+            "src": src, "case": [kind, m, s, tags, a, route, is_async, autoescape]}
 
 
 def method_sweep(ck, cases):
@@ -255,7 +271,10 @@ def method_sweep(ck, cases):
                     if route == "nested" and kind == "set":
                         pass
                     for is_async in ((False, True) if (not quick or route in ("direct", "alias_set")) else (False,)):
-                        jobs.append((kind, m, c["s"], c["tags"], c["a"], route, is_async))
+                        jobs.append((kind, m, c["s"], c["tags"], c["a"], route, is_async, False))
+                    # the routes that run through filter / format code with an autoescape branch
+                    if route in AUTOESCAPE_ROUTES or not quick:
+                        jobs.append((kind, m, c["s"], c["tags"], c["a"], route, False, True))
     if len(jobs) > 3000:
         with ProcessPoolExecutor(max_workers=12) as ex:
             traces = list(ex.map(method_case, jobs, chunksize=200))
@@ -276,9 +295,10 @@ def method_sweep(ck, cases):
 def report_method(ck, traces, rejected):
     for idx, stuck in rejected:
         t = traces[idx]
-        kind, m, s, tags, a, route, is_async = t["case"]
+        kind, m, s, tags, a, route, is_async, autoescape = t["case"]
         ev = t["ev"][stuck - 1] if stuck else {"e": "?"}
-        what = (f"immutable sandbox ({'async' if is_async else 'sync'}): `{t['src']}` with c = {kind}({s}), args {a}: "
+        what = (f"immutable sandbox ({'async' if is_async else 'sync'}{', autoescape' if autoescape else ''}): "
+                f"`{t['src']}` with c = {kind}({s}), args {a}: "
                 + ("the gate handed out a mutating method" if ev["e"] in ("gate", "deliver")
                    else f"container data changed ({ev.get('s')})" if ev["e"] == "changed"
                    else f"event {ev} is not allowed by SandboxGate"))
@@ -307,7 +327,9 @@ FILTER_SPECIFIC = {
     "groupby": ["{{ lod|groupby('k1') }}", "{{ lod|groupby('k1', default=lst) }}"],
     "dictsort": ["{{ dct|dictsort }}", "{{ dct|dictsort(by='value', reverse=true) }}"],
     "items": ["{{ dct|items|list }}"],
-    "join": ["{{ lst|join(',') }}", "{{ lod|join(',', attribute='k1') }}", "{{ lol|join(lst) }}"],
+    "join": ["{{ lst|join(',') }}", "{{ lod|join(',', attribute='k1') }}", "{{ lol|join(lst) }}",
+             "{{ mix|join(', ') }}", "{{ lst|join(mk) }}", "{{ mix|join(mk) }}", "{{ lol|map('join', ',')|list }}",
+             "{{ box.inner|join('-') }}", "{{ lol|join(',', attribute=0) }}"],
     "select": ["{{ lst|select|list }}", "{{ lst|select('odd')|list }}", "{{ lol|select('in', lol)|list }}"],
     "reject": ["{{ lst|reject('odd')|list }}"],
     "selectattr": ["{{ lod|selectattr('k1')|list }}", "{{ lod|selectattr('k1', 'in', lst)|list }}"],
@@ -325,12 +347,22 @@ FILTER_SPECIFIC = {
     "first": ["{{ lol|first }}", "{{ (lol|first)|list }}"],
     "last": ["{{ lol|last }}"],
 }
-DATA_VARS = ["lst", "dct", "st", "dq", "lol", "lod"]
+DATA_VARS = ["lst", "dct", "st", "dq", "lol", "lod", "mix"]
+# the filter reaches the container directly, as an element handed over by map, or nested in another one
+VIA_FORMS = ["{{ lol|map('%s')|list }}", "{{ lod|map('%s')|list }}", "{{ box.inner|%s }}", "{{ [mix, dq]|map('%s')|list }}"]
+# environment configurations every filter template is rendered under (sync; async: see filter_sweep)
+CONFIGS = [{"autoescape": False}, {"autoescape": True}]
 
 
 def filter_ctx():
+    from markupsafe import Markup
+
+    # `mix`: elements of several types (int, str with markup characters, Markup, float, None, bool), so that a
+    # filter that coerces / escapes / replaces elements in place shows in the deep comparison
+    mix = [1, "<a>", Markup("<b>x</b>"), 2.5, None, True]
     return {"lst": [3, 1, 2], "dct": {"k1": 2, "k0": 1}, "st": {2, 1}, "dq": collections.deque([3, 1, 2]),
-            "lol": [[2], [1]], "lod": [{"k1": 2}, {"k1": 1}]}
+            "lol": [[2], [1]], "lod": [{"k1": 2}, {"k1": 1}], "mix": mix, "box": {"inner": [10, "<i>", 20]},
+            "mk": Markup("<br>")}
 
 
 def filter_templates(env_filters, quick):
@@ -339,10 +371,11 @@ def filter_templates(env_filters, quick):
         srcs = list(FILTER_SPECIFIC.get(f, []))
         for x in DATA_VARS:
             srcs.append("{{ %s|%s }}" % (x, f))
-            for y in (DATA_VARS if not quick else ["lst"]):
+            for y in (DATA_VARS + ["mk"] if not quick else ["lst"]):
                 srcs.append("{{ %s|%s(%s) }}" % (x, f, y))
                 if not quick:
                     srcs.append("{{ %s|%s(1, %s) }}" % (x, f, y))
+        srcs += [v % f for v in VIA_FORMS]
         for s in srcs:
             out.append((f, s))
     return out
@@ -350,15 +383,17 @@ def filter_templates(env_filters, quick):
 
 def filter_case(job):
     core.use_repo()
-    f, src, is_async = job
+    f, src, is_async = job[:3]
+    cfg = dict(job[3]) if len(job) > 3 else {"autoescape": False}
     rec = su.Recorder()
-    env = su.make_env(rec, immutable=True, enable_async=is_async)
+    env = su.make_env(rec, immutable=True, enable_async=is_async, **cfg)
     ctx = filter_ctx()
     before = copy.deepcopy(ctx)
     outcome, _ = su.render(env, src, ctx, is_async)
     changed_events(rec, before, ctx)
     rec.emit("end", s=outcome)
-    return {"env": "immutable", "policy": "default", "path": [], "callables": [], "ev": rec.ev}
+    return {"env": "immutable", "policy": "default", "path": [], "callables": [], "ev": rec.ev,
+            "cfg": dict(cfg, **{"async": is_async})}
 
 
 def filter_sweep(ck):
@@ -367,8 +402,16 @@ def filter_sweep(ck):
     quick = ck.tier == "quick"
     names = ImmutableSandboxedEnvironment().filters
     rnd = random.Random(ck.seed + 7)
-    jobs = [(f, s, a) for f, s in filter_templates(names, quick) for a in (False, True)
-            if not (quick and a and f not in FILTER_SPECIFIC and rnd.random() < 0.5)]
+    # every template under every configuration, sync; async: all (thorough) / the filter-specific forms and a
+    # seeded half of the others under one seeded configuration each (quick)
+    jobs = []
+    for f, s in filter_templates(names, quick):
+        for cfg in CONFIGS:
+            jobs.append((f, s, False, cfg))
+            if not quick:
+                jobs.append((f, s, True, cfg))
+        if quick and (f in FILTER_SPECIFIC or rnd.random() < 0.5):
+            jobs.append((f, s, True, rnd.choice(CONFIGS)))
     missing = sorted(set(names) - {j[0] for j in jobs})
     if missing:
         raise core.MachineryError(f"filters without a sweep template: {missing}")
@@ -387,17 +430,18 @@ def filter_sweep(ck):
 
 def report_filter(ck, jobs, traces, rejected):
     for idx, stuck in rejected:
-        f, src, is_async = jobs[idx]
+        f, src, is_async, cfg = jobs[idx]
         ev = traces[idx]["ev"][stuck - 1] if stuck else {"e": "?"}
         mode = "async" if is_async else "sync"
         if ev["e"] == "changed":
-            ck.violation({"kind": "filter", "filter": f, "src": src, "async": is_async, "events": traces[idx]["ev"]},
-                         f"immutable sandbox ({mode}): `{src}` modified context variable {ev['s']!r} "
+            ck.violation({"kind": "filter", "filter": f, "src": src, "async": is_async, "cfg": cfg,
+                          "events": traces[idx]["ev"]},
+                         f"immutable sandbox ({mode}, {cfg}): `{src}` modified context variable {ev['s']!r} "
                          f"({ev['k']}); data {filter_ctx()}",
                          {"kind": "filter-mutates-argument", "filter": f, "mode": mode})
         else:
-            ck.violation({"kind": "filter", "filter": f, "src": src, "async": is_async, "events": traces[idx]["ev"],
-                          "stuck": stuck},
+            ck.violation({"kind": "filter", "filter": f, "src": src, "async": is_async, "cfg": cfg,
+                          "events": traces[idx]["ev"], "stuck": stuck},
                          f"immutable sandbox ({mode}): `{src}`: event {ev} is not allowed by SandboxGate",
                          {"kind": "mutator-not-gated" if ev["e"] in ("gate", "deliver") else "trace-rejected",
                           "container": ev.get("k"), "method": ev.get("a", {}).get("n"), "filter": f})
@@ -411,7 +455,8 @@ def run(ck):
     fjobs, ftraces = filter_sweep(ck)
     # code->spec: one batch, TLC accepts or rejects every trace
     strip = [{k: v for k, v in t.items() if k not in ("src", "case")} for t in mtraces] + ftraces
-    rejected = su.validate(ck, PID, strip, "traces", parallel=2 if ck.tier == "quick" else 6)
+    ck.extra["configurations"] = CONFIGS
+    rejected = su.validate(ck, PID, strip, "traces", parallel=4 if ck.tier == "quick" else 6)
     nm_ = len(mtraces)
     report_method(ck, mtraces, [(i, st) for i, st in rejected if i < nm_])
     report_filter(ck, fjobs, ftraces, [(i - nm_, st) for i, st in rejected if i >= nm_])
@@ -445,7 +490,7 @@ def replay(ck, rec):
     if case["kind"] == "method":
         t = method_case(tuple(case["case"]))
     else:
-        t = filter_case((case["filter"], case["src"], case["async"]))
+        t = filter_case((case["filter"], case["src"], case["async"], case.get("cfg", {"autoescape": False})))
     strip = {k: v for k, v in t.items() if k not in ("src", "case")}
     if su.validate(ck, PID, [strip], "replay"):
         ck.violation(case, "trace still rejected by SandboxTrace", rec.get("fingerprint"))
